@@ -1,5 +1,5 @@
 (* C11  Orientation counters stay consistent; orientation divisors obey K identities. *)
-From Coq Require Import ZArith List Bool.
+From Coq Require Import Permutation ZArith List Bool.
 Import ListNotations.
 From CF Require Import ZSum ListAux Defs Reduced Core Machines OrientLink OrientRound PyDict ImpRep TranslatedImpCFOrientation ImpLinkOrient.
 Open Scope Z_scope.
@@ -90,6 +90,20 @@ Theorem C11_source_set_orientation : forall g, wfb g = true -> forall gg, rep_gr
   | PyOk (outd', ind', oo', isf', isfc') => exists s', set_orientation g s a b st = Ok s' /\ rep_ostate g oo' outd' ind' isf' isfc' s' end.
 Proof. exact set_orientation_refines. Qed.
 Print Assumptions C11_source_set_orientation.
+(* check_fullness as translated from the current source (nested loops over the vertex set - in ANY iteration order `so` - and over the adjacency rows, leaving
+   both loops at the first edge without a direction): it never raises on representing dictionaries, answers full_b, and leaves is_full = full_b,
+   is_full_checked = true, which is the model's check_fullness; the two counters read as the model's inc / outc *)
+Theorem C11_source_check_fullness : forall g, wfb g = true -> forall gg, rep_graph gg g -> forall oo s, rep_orient oo g s -> forall isf isfc vs (so : list nat -> list nat),
+  rep_vset (nv g) vs -> (forall l, Permutation (so l) l) ->
+  CFOrientation_check_fullness isf isfc vs gg oo so = PyOk (full_b g s, (full_b g s, true)) /\
+  check_fullness g s = ({| dir := dir s; inc := inc s; outc := outc s; is_full := full_b g s; is_full_checked := true |}, full_b g s).
+Proof. intros g Hwf gg Hgg oo s Ho isf isfc vs so Hvs Hso. split; [apply (check_fullness_refines g Hwf gg Hgg oo s Ho isf isfc vs so Hvs Hso)|reflexivity]. Qed.
+Print Assumptions C11_source_check_fullness.
+Theorem C11_source_counters : forall g gg ind outd s v, rep_graph gg g -> rep_div (nv g) ind (inc s) -> rep_div (nv g) outd (outc s) ->
+  CFOrientation_get_in_degree gg ind v = (if Nat.ltb v (nv g) then PyOk (nthZ (inc s) v) else PyExn tt) /\
+  CFOrientation_get_out_degree gg outd v = (if Nat.ltb v (nv g) then PyOk (nthZ (outc s) v) else PyExn tt).
+Proof. exact get_in_out_degree_refines. Qed.
+Print Assumptions C11_source_counters.
 Example C11_source_nonvacuous : let g := [[0;2;1];[2;0;1];[1;1;0]] in
   let oo := [(0%nat, [(1%nat, 0); (2%nat, 0)]); (1%nat, [(0%nat, 0); (2%nat, 0)]); (2%nat, [(0%nat, 0); (1%nat, 0)])] in
   match CFOrientation_set_orientation oo (dict_of_graph g) (dict_of_div [0;0;0]) (dict_of_div [0;0;0]) false false 1%nat 0%nat 1 with
